@@ -666,6 +666,11 @@ impl ImageHandler for KittyImageHandler {
             ?img,
             "[KittyImageHandler.draw]"
         );
+        // Empty image has no pixel data to transmit (zero width/height is rejected
+        // by the protocol), so there is nothing that can be placed.
+        if img.is_empty() {
+            return Ok(());
+        }
         let img_id = kitty_image_id(img);
 
         // q   - suppress response from the terminal 1 - OK only, 2 - All.
